@@ -332,7 +332,14 @@ def _edited_handle(path, df, res, counters):
     import fastparquet
     from fastparquet.writer import reset_row_idx
     from vf.props import common as C
+    import os
+    import pandas as pd
+    nomd = bool(len(df) % 2)
     try:
+        if nomd:
+            # a dataset without pandas metadata: dtypes then rest on the null counts of the row groups alone
+            from fastparquet.writer import update_file_custom_metadata
+            update_file_custom_metadata(path if os.path.isfile(path) else os.path.join(path, "_metadata"), {"pandas": None})
         pf = fastparquet.ParquetFile(path)
         pf.to_pandas()
         _answers(pf)
@@ -344,8 +351,18 @@ def _edited_handle(path, df, res, counters):
         try:
             if step == "write_row_groups":
                 data = reset_row_idx(df) if pf._get_index() else df
+                # the appended batch brings the first missing value into an integer column that had none
+                # (only where the dtypes rest on the null counts: with pandas metadata the column's dtype was declared by the first write)
+                for c_ in (list(data.columns) if nomd else []):
+                    if str(data[c_].dtype).lower() in ("int8", "int16", "int32", "int64", "uint8", "uint16", "uint32") and len(data) > 1 and c_ != "rid" and not data[c_].isna().any() \
+                            and next((e_.repetition_type == 1 for e_ in pf.schema.schema_elements if e_.name == c_), False):
+                        data = data.copy()
+                        nm_ = str(data[c_].dtype)
+                        data[c_] = data[c_].astype(nm_ if nm_[0] in "IU" else ("UInt" + nm_[4:] if nm_.startswith("uint") else "Int" + nm_[3:]))
+                        data.loc[data.index[0], c_] = pd.NA
+                        counters["edited_handle_appends_bringing_first_nulls"] = counters.get("edited_handle_appends_bringing_first_nulls", 0) + 1
+                        break
                 # categorical columns of the appended batch carry labels the dataset has not seen yet
-                import pandas as pd
                 grown = []
                 for c_ in list(data.columns):
                     dt_ = data[c_].dtype
@@ -408,4 +425,4 @@ def _edited_handle(path, df, res, counters):
 
 
 def required(tier):
-    return {"optionsets_compared": 1500, "dtype_predictions": 5000, "pandas_nulls_false_compared": 500, "row_group_parts_predicted": 300, "reads_with_dtypes_mapping": 200, "edited_handle_steps_compared": 150, "files_with_nested_columns_before_flat_ones": 15, "edited_handle_appends_with_new_categories": 15}
+    return {"optionsets_compared": 1500, "dtype_predictions": 5000, "pandas_nulls_false_compared": 500, "row_group_parts_predicted": 300, "reads_with_dtypes_mapping": 200, "edited_handle_steps_compared": 150, "files_with_nested_columns_before_flat_ones": 15, "edited_handle_appends_with_new_categories": 15, "edited_handle_appends_bringing_first_nulls": 5}
